@@ -186,7 +186,7 @@ func streamFloat(thorough bool) {
 			x = uint64(rng.Intn(1 << 30))
 			r = math.Float64bits(float64(x))
 		}
-		if (op == "add" || op == "sub" || op == "mul" || op == "div" || op == "min") && math.IsNaN(math.Float64frombits(r)) {
+		if (op == "add" || op == "sub" || op == "mul" || op == "div" || op == "min" || op == "round" || op == "rte" || op == "floor") && math.IsNaN(math.Float64frombits(r)) {
 			// NaN payloads are not modelled: canonicalise
 			r = 0x7ff8000000000001
 			emit("U "+op+" "+strconv.FormatUint(x, 16)+" "+strconv.FormatUint(y, 16), "nan")
